@@ -18,7 +18,7 @@ RULE = (
     "the internal caches (repeated Q2 values, x on grid nodes, x equal to the Nachtmann xi of another point, x equal to a "
     "Q2 value, duplicates, both key orders of the kinematics dict) and a history: an ordered list of observables sharing "
     "caches (F2/FL/F3 of one or two heavynesses and the cross sections built from them), each with an ordered list of "
-    "points, followed by 1-3 get_result calls on the same Runner. Every returned ESFResult/EXSResult (order keys and their "
+    "points, followed by 1-3 get_result calls on the same Runner (in half of the histories the caller overwrites, in place, every array of the output it was handed before asking again). Every returned ESFResult/EXSResult (order keys and their "
     "order, values, errors, x, Q2, y) must be bitwise the model entry. Non-trivial = at least two observables that share a "
     "cache and (a repeated get_result or a point list with repeated Q2/duplicates)."
 )
@@ -28,7 +28,7 @@ ASSUMPTIONS = [
 ]
 BUDGET = {"quick": {"examples": 800, "wall": 420, "min_evaluations": 200}, "thorough": {"examples": 6000, "wall": 2400, "min_evaluations": 1500}}
 MANDATORY = {
-    t: ["nontrivial", "tmc:on", "tmc:off", "target:other", "process:CC", "xs", "duplicate-point", "repeated-q2", "rerun", "x-is-xi", "x-on-node", "two-heavyness", "key-order:Q2-first"]
+    t: ["nontrivial", "tmc:on", "tmc:off", "target:other", "process:CC", "xs", "duplicate-point", "repeated-q2", "rerun", "x-is-xi", "x-on-node", "two-heavyness", "key-order:Q2-first", "caller-overwrites-returned-results"]
     for t in ("quick", "thorough")
 }
 SHRINK = {"quick": False, "thorough": True}
@@ -98,6 +98,7 @@ def cases(draw, tier="quick"):
         "plan": plan,
         "calls": draw(st.integers(1, 3)),
         "q2first": draw(st.booleans()),
+        "scribble": draw(st.booleans()),
         "meta": {"scheme": scheme, "process": process, "pto": pto, "tmc": tmc},
     }
 
@@ -185,6 +186,18 @@ def check_case(case):
                             f"C14:history-dependence:{'tmc' if th['TMC'] else 'plain'}:{'xs' if n.split('_')[0] in configs.XS_KINDS else 'sf'}",
                             f"{n} point #{pos} (x={pool[i]['x']}, Q2={pool[i]['Q2']}) in call {call+1} of history {plan} differs from its isolated run: {why}",
                         )
+            if case.get("scribble") and case["calls"] > 1:
+                # the caller does what it likes with the objects it was handed: later requests must not see it
+                v.label("caller-overwrites-returned-results")
+                for n, _ in plan:
+                    for res in out[n]:
+                        for k in list(res.orders):
+                            val, err = res.orders[k]
+                            try:
+                                np.multiply(val, -3.0, out=val)
+                                err[...] = 7.0
+                            except (TypeError, ValueError):
+                                res.orders[k] = (None, None)
     shares = len(names) >= 2
     v.nontrivial = shares and (case["calls"] > 1 or dup or repq)
     if v.nontrivial:
